@@ -152,7 +152,7 @@ package types
 //@ // verifySeal: the header is sealed by a member of the validator set that sealed none of the blocks above
 //@ // number - (N/2+1), with the difficulty of its turn; the sealer is recorded for this block number
 //@ func verifySeal(cdc, store, clientState, header) (err)
-//@   props C17
+//@   props C17 C20
 //@   modifies tibc
 //@   let c      = clientOf(store)
 //@   let chain  = bigof(clientState.ChainId)
